@@ -37,6 +37,11 @@ class MgrProp(core.Prop):
         line = mgr.request_line(kind, shuffle, script, tape, sess.ops, sess.trace)
         impl = wire.enc(sess.trace)
         desc = {"kind": kind, "shuffle": bool(shuffle), "script": script, "tape": list(tape), "ops": sess.ops}
+        if kind == 0 and getattr(sess, "sim", None) is not None and hasattr(sess, "mgr"):
+            what = mgr.faulting_last_step(sess)
+            if what:
+                self.runtime_failures = getattr(self, "runtime_failures", [])
+                self.runtime_failures.append((what, dict(desc, after_history="faulting_last_step")))
         finishes = any(e[0][0] == "s" and (e[0][5] or any(d for _, d in e[0][3])) for e in sess.trace)
         tags = [mgr.KINDS[kind]]
         for e in sess.trace:
@@ -48,6 +53,14 @@ class MgrProp(core.Prop):
         tags.append("eps:%d" % sum(1 for o in sess.ops if o[0] == "r"))
         return core.Case(desc, line, impl, key=json.dumps([kind, shuffle, script, sess.ops], sort_keys=True),
                          nontrivial=finishes, tags=tags, origin=origin)
+
+    def extra_checks(self, tier, rng, report):
+        seen = set()
+        for what, desc in getattr(self, "runtime_failures", []):
+            if what.split(":")[0] not in seen:
+                seen.add(what.split(":")[0])
+                report.runtime_failure(what, desc)
+        report.notes["interrupted_step_failures"] = len(getattr(self, "runtime_failures", []))
 
     def case_from_desc(self, desc):
         if desc.get("stream") == "example-mgr":
